@@ -667,6 +667,30 @@ def run_random(chk, tag, seed, ndocs, per, timeout=3000):
     return rec, bad
 
 
+def run_machine(chk, tag, docs, cfgs_all, cfgsel, exprs, timeout=3000):
+    """model-level: the small-step evaluator of spec/Eval.tla refines Den on every (expression, configuration, document)
+    and keeps its stack / scoping / order invariants (no implementation involved)"""
+    strings = set()
+    for d in docs:
+        walk_strings(d["av"], strings)
+    for i in cfgsel:
+        if cfgs_all[i]["unknown"]["k"] != "none":
+            walk_strings(cfgs_all[i]["unknown"], strings)
+    lits = literals_of(exprs)
+    parts = path_parts(exprs, [])
+    jn = {s for s in strings if len(s) < 30}
+    world = {"docs": docs, "cfgs": [cfgs_all[i] for i in cfgsel], "exprs": exprs, "floattab": floattab.table(lits | parts | jn | {"0"}),
+             "regextab": regextab({a["val"] for a in atoms_flat(exprs) if a["op"] in ("matches", "notmatches")}, strings)}
+    cfg = ('SPECIFICATION Spec\nCONSTANT WorldFile = "world.json"\nINVARIANTS Refines EnvBalanced ShortCircuit InOrder Progress\nCHECK_DEADLOCK FALSE\n')
+    r = run_tlc("Eval", cfg, sub(tag), files={"world.json": world}, timeout=timeout, want_cases=False)
+    chk.add_tlc(r)
+    if r.violation:
+        raise Infra("the small-step evaluator model violates %s:\n%s" % (r.violation, r.out[-3000:]))
+    log("%s: small-step machine: %d expressions x %d configurations x %d documents, %d states, all invariants hold" % (
+        tag, len(exprs), len(cfgsel), len(docs), r.distinct))
+    return r
+
+
 # ---------------------------------------------------------------------------------------
 # verdicts and evidence
 
